@@ -263,6 +263,13 @@ def handle : Handler
     | some t =>
       let (res, out, _) := render ⟨[codegenModule t none], 1000000000⟩ ⟨none, false⟩ (r.toks.length + 9)
       pure (encBool plain ++ " " ++ encBool ok ++ " " ++ showVRes res ++ " " ++ encStr out)
+  | ["sharedstack", depth] => do
+    -- the caller's context after `_render_error` ran on a copy of it (format_exceptions): `<buffers seen by the
+    -- caller> <the only buffer holds the page>`; `depth` = buffers on the shared stack when the exception arrived
+    let d ← depth.toNat?
+    let h : CtxHeap := ⟨[(List.range d).map fun i => (i, "partial".toList)]⟩
+    let seen := (renderErrorHeap h (CtxRef.copy ⟨0⟩) "PAGE".toList).stackOf ⟨0⟩
+    pure (toString seen.length ++ " " ++ encBool (seen == [(0, "PAGE".toList)]))
   | ["errobj", eh, fe, isx] => do
     -- decision logic on exception objects: `<handler arg: inst|cls|none> <seen: returned|same> <page>`
     let (eh, _) ← pIeh [eh]
